@@ -537,10 +537,32 @@ def rule_window(ctx):
                 l_, r_ = t_.left, t_.comparators[0]
                 elapsed_left = "reset_rate" in src(r_)
                 gt = isinstance(t_.ops[0], (ast.Gt, ast.GtE)) if elapsed_left else isinstance(t_.ops[0], (ast.Lt, ast.LtE))
-                ok = bool(pol) == bool(gt)
+                el = l_ if elapsed_left else r_
+
+                def sterms(e, sign=1):
+                    if isinstance(e, ast.BinOp) and isinstance(e.op, (ast.Add, ast.Sub)):
+                        return sterms(e.left, sign) + sterms(e.right, sign if isinstance(e.op, ast.Add) else -sign)
+                    return [(sign, src(e))]
+                oriented = sorted(sterms(el)) == [(-1, "self._start"), (1, start_p)]
+                ok = bool(pol) == bool(gt) and oriented
     ctx.ob("C15.WINDOW", resets[0] if resets else ap, "the window is folded only when more than reset_rate has elapsed", ok,
            "Throttle.append folds the window under the opposite of `elapsed > reset_rate` (or without that test): the sum is rebased on every block - or never - and the delay computed "
            "from it no longer matches the configured rate", construct="window:reset test")
 
 
-RULES = [rule_share, rule_dir, rule_order, rule_off, rule_dim, rule_default, rule_support, rule_borrowed_r4, rule_window]
+def rule_user_limits(ctx):
+    p = ctx.p
+    ctx.rule("C15.USER", "a user's four speed limits end up in the like-named attributes (read stays read, per-connection stays per-connection): USER builds the per-user throttles from them by name")
+    ui = p.method("User", "__init__")
+    n = 0
+    for name in ("read_speed_limit", "write_speed_limit", "read_speed_limit_per_connection", "write_speed_limit_per_connection"):
+        st = [s_ for s_, t in attr_stores(ui, name, nested=False) if isinstance(s_, ast.Assign)]
+        n += len(st)
+        ok = len(st) == 1 and isinstance(st[0].value, ast.Name) and st[0].value.id == name
+        ctx.ob("C15.USER", st[0] if st else ui, f"User.{name} = {name}", ok, f"User.{name} is set from `{src(st[0].value) if st else None}`: the user's limits are crossed (a download limit throttles uploads)",
+               construct=f"user:{name}")
+    if n < 4:
+        ctx.floor_errors.append(f"rule=C15.USER: {n} limit stores in User.__init__ (floor 4)")
+
+
+RULES = [rule_share, rule_dir, rule_order, rule_off, rule_dim, rule_default, rule_support, rule_borrowed_r4, rule_window, rule_user_limits]
